@@ -87,8 +87,8 @@ def points_of(r, pc, dim=3):
     """rows of the returned array, or the vertices of the returned PointCloud (first `dim` coordinates)"""
     import mouette as M
     if pc:
-        if not isinstance(r, M.mesh.PointCloud):
-            raise RuntimeError("return_point_cloud=True did not return a PointCloud but %s" % type(r).__name__)
+        if not hasattr(r, "vertices"):
+            raise RuntimeError("return_point_cloud=True returned %s, which has no vertices" % type(r).__name__)
         rows = [vec(v) for v in r.vertices]
         for row in rows:
             if len(row) != 3 or any(t != 0.0 for t in row[dim:]):
@@ -128,6 +128,16 @@ def prepare_scenario(mesh, c, k):
             M.attributes.face_normals(mesh)
             M.attributes.face_area(mesh)
         M.attributes.edge_length(mesh)
+    elif c["pre"] == "sample":
+        from mouette import sampling
+        try:
+            if k == "surface":
+                sampling.sample_surface(mesh, 2, return_normals=True)
+                sampling.sample_surface(mesh, 2, return_point_cloud=True, return_normals=True)
+            else:
+                sampling.sample_polyline(mesh, 2)
+        except Exception:
+            pass
     elif c["pre"] == "junk":
         j = c["junk"]
         if k == "surface":
@@ -292,12 +302,12 @@ def run_case(c):
         elif k == "polyline":
             sampler = lambda: call(sampling.sample_polyline, c, [mesh, R(c, "n", c["n"])],
                                    [("return_point_cloud", R(c, "pc", c["pc"]), False)])
-            snap = lambda: [[vec(v) for v in mesh.vertices], [[int(a), int(b)] for a, b in mesh.edges], mesh_attr_names(mesh)]
+            snap = lambda: [[vec(v) for v in mesh.vertices], [[int(a), int(b)] for a, b in mesh.edges]]
         elif k == "surface":
             sampler = lambda: call(sampling.sample_surface, c, [mesh, R(c, "n", c["n"])],
                                    [("return_point_cloud", R(c, "pc", c["pc"]), False),
                                     ("return_normals", R(c, "normals", c["normals"]), False)])
-            snap = lambda: [[vec(v) for v in mesh.vertices], [[int(x) for x in f] for f in mesh.faces], mesh_attr_names(mesh)]
+            snap = lambda: [[vec(v) for v in mesh.vertices], [[int(x) for x in f] for f in mesh.faces]]
         before = snap() if snap else None
         if sampler is not None and c.get("twice"):
             # the same request twice: the first result is overwritten by the caller before the second is observed
@@ -355,9 +365,12 @@ def run_case(c):
                         kwargs["custom_pos"] = custom
                     pl = cu.as_polyline(**kwargs)
                 before, snap = [net0], (lambda: [[vec(p) for p in cu.pts]])
-                at = pl.vertices.get_attribute("t")
                 obs["verts"] = [vec(v) for v in pl.vertices]
-                obs["t"] = [fl(at[i]) for i in range(len(pl.vertices))]
+                try:       # name and presence of the parameter attribute are not fixed by the property
+                    at = pl.vertices.get_attribute("t")
+                    obs["t"] = [fl(at[i]) for i in range(len(pl.vertices))]
+                except Exception:
+                    obs["t"] = None
                 obs["edges"] = [[int(a), int(b)] for a, b in pl.edges]
             elif k == "surfacex":
                 pa = M.splines.BezierPatch(container([container(fnet(row), c.get("net_as")) for row in c["rows"]], c.get("net_as")
@@ -371,9 +384,12 @@ def run_case(c):
                 else:
                     sm = pa.as_surface(R(c, "n", c["n1"]), R(c, "n", c["n2"]))
                 before, snap = [net0], (lambda: [[[vec(p) for p in row] for row in pa.pts]])
-                at = sm.vertices.get_attribute("uv_coords")
                 obs["verts"] = [vec(v) for v in sm.vertices]
-                obs["uv"] = [vec(at[i]) for i in range(len(sm.vertices))]
+                try:
+                    at = sm.vertices.get_attribute("uv_coords")
+                    obs["uv"] = [vec(at[i]) for i in range(len(sm.vertices))]
+                except Exception:
+                    obs["uv"] = None
                 obs["faces"] = [[int(x) for x in f] for f in sm.faces]
             elif k == "gridres":
                 # the values the resolution expression of sample_AABB (shape pinned by the translator) takes in
